@@ -296,11 +296,12 @@ SlotsOf(p) == CASE p[Len(p)] = "slot-q" -> QueryPos \X Shapes [] p[Len(p)] = "sl
 RECURSIVE Build(_, _, _)
 Build(p, i, sl) == IF i = Len(p) THEN Leaf(p[i], i, sl) ELSE Nest(p[i], i, Build(p, i + 1, sl))
 
-VARIABLES path, slot, done
-vars == <<path, slot, done>>
-Stmt == Build(path, 1, slot)
-Init == path \in Paths /\ slot \in SlotsOf(path) /\ done = FALSE
-Run == /\ ~done /\ done' = TRUE /\ UNCHANGED <<path, slot>>
+VARIABLES path, slot, done,
+          stmt        \* the composition, built once (every law reads it)
+vars == <<path, slot, done, stmt>>
+Stmt == stmt
+Init == path \in Paths /\ slot \in SlotsOf(path) /\ done = FALSE /\ stmt = Build(path, 1, slot)
+Run == /\ ~done /\ done' = TRUE /\ UNCHANGED <<path, slot, stmt>>
        /\ (Emit => PrintT(ToJson([path |-> path, slot |-> slot, toks |-> Stmt.toks, T |-> Stmt.T, TQ |-> Stmt.TQ, C |-> Stmt.C, CQ |-> Stmt.CQ, F |-> Stmt.F, A |-> Stmt.A])))
 Spec == Init /\ [][Run]_vars
 
@@ -313,20 +314,24 @@ Keywords == {"SELECT", "FROM", "WHERE", "JOIN", "ON", "AS", "INSERT", "INTO", "V
              "RETURNING", "CONFLICT", "DO", "BETWEEN", "AND", "FILTER", "OVER", "PARTITION", "DISTINCT", "WITHIN", "LIKE", "IS", "NULL",
              "MATCHED", "INT"}
 \* every expected column and function name, and the last component of every table name, is a token of the statement
-Written == /\ Stmt.C \subseteq Toks /\ Stmt.F \subseteq Toks
-           /\ \A q \in Stmt.TQ : q[2] \in Toks /\ (q[1] # "" => q[1] \in Toks)
-           /\ \A q \in Stmt.CQ : q[2] \in Stmt.C
+\* (the laws are evaluated in the first state of each behaviour; the Run step changes nothing they read)
+WrittenLaw == /\ Stmt.C \subseteq Toks /\ Stmt.F \subseteq Toks
+              /\ \A q \in Stmt.TQ : q[2] \in Toks /\ (q[1] # "" => q[1] \in Toks)
+              /\ \A q \in Stmt.CQ : q[2] \in Stmt.C
+Written == done \/ WrittenLaw
 \* aliases, keywords and string contents are never expected
-Clean == /\ Stmt.A \cap (Stmt.T \cup Stmt.C \cup Stmt.F) = {}
-         /\ Keywords \cap (Stmt.T \cup Stmt.C) = {}
-         /\ Lits \cap (Stmt.T \cup Stmt.C \cup Stmt.F) = {}
-         \* and what a literal spells is not expected because of the literal: the names inside literals are
-         \* names of no table or column position of that level
-         /\ \A L \in 1..Depth : Tab(L, "b") \in Stmt.T => \E i \in DOMAIN Stmt.toks : Stmt.toks[i] = Tab(L, "b")
-Disjoint == Stmt.T \cap Stmt.C = {} /\ Stmt.T \cap Stmt.F = {} /\ Stmt.C \cap Stmt.F = {}
+CleanLaw == /\ Stmt.A \cap (Stmt.T \cup Stmt.C \cup Stmt.F) = {}
+            /\ Keywords \cap (Stmt.T \cup Stmt.C) = {}
+            /\ Lits \cap (Stmt.T \cup Stmt.C \cup Stmt.F) = {}
+            \* and what a literal spells is not expected because of the literal: the names inside literals are
+            \* names of no table or column position of that level
+            /\ \A L \in 1..Depth : Tab(L, "b") \in Stmt.T => \E i \in DOMAIN Stmt.toks : Stmt.toks[i] = Tab(L, "b")
+Clean == done \/ CleanLaw
+Disjoint == done \/ (Stmt.T \cap Stmt.C = {} /\ Stmt.T \cap Stmt.F = {} /\ Stmt.C \cap Stmt.F = {})
 \* the simple and the qualified variants describe the same names
-Consistent == /\ {q[2] : q \in Stmt.CQ} = Stmt.C
-              /\ {IF q[1] = "" THEN q[2] ELSE q[1] \o "." \o q[2] : q \in Stmt.TQ} = Stmt.T
-NestedIncluded == Len(path) > 1 =>
+ConsistentLaw == /\ {q[2] : q \in Stmt.CQ} = Stmt.C
+                 /\ {IF q[1] = "" THEN q[2] ELSE q[1] \o "." \o q[2] : q \in Stmt.TQ} = Stmt.T
+Consistent == done \/ ConsistentLaw
+NestedIncluded == (~done /\ Len(path) > 1) =>
                      LET inner == Build(path, 2, slot) IN inner.T \subseteq Stmt.T /\ inner.C \subseteq Stmt.C /\ inner.F \subseteq Stmt.F
 =============================================================================
